@@ -683,6 +683,9 @@ func ParseSInterP(buf string) frt.Tuple2[string, []string] {
 				res.WriteByte(c)
 				res.WriteByte(c2)
 			}
+		} else if c == '%' {
+			// literal percent must survive fmt.Sprintf.
+			res.WriteString("%%")
 		} else if c == '{' {
 			i++
 			vbeg := i
